@@ -6,7 +6,6 @@
  "replace": ["free"],
  "annotate": ["crypto/crypto_aesctr.c", "crypto/crypto_aesctr_shared.c", "util/insecure_memzero.c"],
  "specs": {"util/insecure_memzero.c": "contracts/util__insecure_memzero.c.aes.spec"},
- "expect_loops": ["insecure_memzero_func"],
  "defines": ["VERIF_HALLOC"],
  "timeout": 120,
  "assumptions": ["free() replaced by a contract whose requires demands that the ghost byte of the tracked object is 0 at the moment of the call"]
